@@ -344,11 +344,70 @@ pub fn libgen(root: &Path, main_rel: &str, incdirs: &[String], w: &mut dyn Write
     }
 }
 
+fn fnv(s: &str) -> u64 {
+    let mut h: u64 = 0xcbf29ce484222325;
+    for b in s.bytes() {
+        h ^= b as u64;
+        h = h.wrapping_mul(0x100000001b3);
+    }
+    h
+}
+
+/// run the whole command-line pipeline in-process (same calls, same order as main.rs) and
+/// print a hash of what each backend would write; `reject` if any stage refuses
+pub fn gen(ub: bool, root: &Path, main_rel: &str, incdirs: &[String], w: &mut dyn Write) {
+    use idlc_codegen::{Generator as _, SplitInvokeGenerator as _};
+    let root = root.canonicalize().unwrap();
+    let Ok(main) = root.join(main_rel).canonicalize() else {
+        writeln!(w, "reject").unwrap();
+        return;
+    };
+    let mut include_paths: Vec<PathBuf> = incdirs.iter().map(|d| root.join(d)).collect();
+    include_paths.push(main.parent().unwrap().to_path_buf());
+    let r = quiet(|| {
+        let mut store = IDLStore::with_includes(&include_paths, ub);
+        let ast = store.get_or_insert(&main);
+        store.run_pass(&ast).map_err(|_| ())?;
+        functions::Functions::new().run_pass(&ast).map_err(|_| ())?;
+        let order = cycles::Cycles::new(&store).run_pass(&ast).map_err(|_| ())?;
+        struct_verifier::StructVerifier::run_pass(&store, &order).map_err(|_| ())?;
+        let mir = idlc_mir::mir::parse_to_mir(&ast, &mut store);
+        interface_verifier::InterfaceVerifier::new(&mir).run_pass();
+        Ok::<_, ()>(mir)
+    });
+    let mir = match r {
+        Ok(Ok(m)) => m,
+        _ => {
+            writeln!(w, "reject").unwrap();
+            return;
+        }
+    };
+    writeln!(w, "accept").unwrap();
+    let mut one = |name: &str, f: &dyn Fn() -> String| match quiet(f) {
+        Ok(t) => writeln!(w, "gen {name} {:016x} {}", fnv(&t), t.len()).unwrap(),
+        Err(()) => writeln!(w, "gen {name} !panic").unwrap(),
+    };
+    one("c-stub", &|| idlc_codegen_c::Generator::new(false).generate_implementation(&mir));
+    one("c-skel", &|| idlc_codegen_c::Generator::new(false).generate_invoke(&mir));
+    one("c-stub-untyped", &|| idlc_codegen_c::Generator::new(true).generate_implementation(&mir));
+    one("c-skel-untyped", &|| idlc_codegen_c::Generator::new(true).generate_invoke(&mir));
+    one("cpp-stub", &|| idlc_codegen_cpp::Generator.generate_implementation(&mir));
+    one("cpp-skel", &|| idlc_codegen_cpp::Generator.generate_invoke(&mir));
+    let multi = |d: idlc_codegen::Descriptor| {
+        let mut v: Vec<(String, String)> = d.into_iter().map(|(p, c)| (p.display().to_string(), c)).collect();
+        v.sort();
+        v.into_iter().map(|(p, c)| format!("{p}\n{c}")).collect::<Vec<_>>().join("\n---\n")
+    };
+    one("rust", &|| multi(idlc_codegen_rust::Generator::generate(&mir)));
+    one("java", &|| multi(idlc_codegen_java::Generator::generate(&mir)));
+}
+
 fn dispatch(args: &[String], w: &mut dyn Write) {
     match args.first().map(String::as_str) {
         Some("facts") if args.len() >= 5 => {
             facts(&args[1], args[2] == "1", Path::new(&args[3]), &args[4], &args[5..], w);
         }
+        Some("gen") if args.len() >= 4 => gen(args[1] == "1", Path::new(&args[2]), &args[3], &args[4..], w),
         Some("libgen") if args.len() >= 3 => libgen(Path::new(&args[1]), &args[2], &args[3..], w),
         Some("pst") if args.len() >= 2 => pst::dump(Path::new(&args[1]), w),
         Some("tables") => tables::emit(w),
